@@ -84,7 +84,14 @@ CHECKS.update({
             "Trusted: vp.ir_eval in 50-digit arithmetic (points whose value changes between 50 and 120 digits are not judged); parameters matched by name.", "DESIGN.md §3 C07"),
 })
 
-READY = ["C01", "C03", "C04", "C06", "C07", "C05", "C10", "C11", "C13", "C14", "C17", "C18", "C19", "C20"]
+CHECKS.update({
+    "C08": ("exploration",
+            "request-sequence monitor: pharmpy's detectors cross-checked by an independent shape classifier of the compartment graph after every request; idempotence and reversibility judged by the vp.ir_eval equivalence oracle; totality by exception class",
+            "All request sequences of length <= 2 (quick) / <= 3 (thorough, exhaustive over the 19-request alphabet and 4 start models) are applied to the real setters; after the last request the detector of its category, the other categories, idempotence, reversibility (add/remove pairs and count categories) and the absence of internal errors are checked.",
+            "Trusted: the shape classifier in vp/checks/c08.py; detector precedence as documented by get_model_features; vp.denote.compare_models with parameters matched by name.", "DESIGN.md §3 C08"),
+})
+
+READY = ["C01", "C03", "C04", "C06", "C07", "C08", "C05", "C10", "C11", "C13", "C14", "C17", "C18", "C19", "C20"]
 
 NOT_BUILT = "check not built yet in this session (design in DESIGN.md); not claimed"
 
